@@ -257,6 +257,27 @@ def _block_cannot_raise(body: List[ast.stmt], allow: Set[str]) -> Tuple[bool, Op
     return True, None
 
 
+def func_total(ctx, fn: Func, depth: int = 1) -> Tuple[bool, Optional[ast.AST]]:
+    """Every may-raise statement of fn's body lies inside a catch-all try whose handlers cannot raise (calls to helpers
+    that are total themselves are allowed, depth-bounded)."""
+    allow = total_helpers(ctx, fn, depth - 1) if depth > 0 else set()
+    body = [st for st in fn.node.body if not (isinstance(st, ast.Expr) and isinstance(st.value, ast.Constant))]
+    return _block_cannot_raise(body, allow)
+
+
+def total_helpers(ctx, fn: Func, depth: int = 1) -> Set[str]:
+    """dotted names called in fn that resolve to program functions which cannot raise (see func_total)"""
+    out: Set[str] = set()
+    for x in walk_no_defs(fn.node):
+        if isinstance(x, ast.Call):
+            r = ctx.prog.callee(fn, x)
+            if r and r[0] == "func" and r[1] in ctx.prog.funcs and r[1] != fn.qual:
+                ok, _ = func_total(ctx, ctx.prog.funcs[r[1]], depth)
+                if ok:
+                    out.add(dotted(x.func))
+    return out
+
+
 # -------------------------------------------------------------- file ops
 WRITE_MODES = set("wax+")
 
